@@ -403,11 +403,6 @@ theorem multipart_roundtrip_counterexample : ¬ MultipartRoundtrips := by
 
 /-! ### Set-Cookie: one header per cookie -/
 
-/-- `Response._get_cookies` at the level of pair lists: every cookie found in every Set-Cookie header (empty ones skipped) -/
-def getSetCookies (hdrs : List Str) : List (List (Str × Option Str)) := (hdrs.flatMap parseSetCookie).filter (· ≠ [])
-/-- `Response._set_cookies`: one header per cookie -/
-def setSetCookies (cs : List (List (Str × Option Str))) : List Str := cs.map formatSetCookie
-
 private def scSpecials : List Str := [S "expires", S "path"]
 
 /-- what a Set-Cookie header can carry for one name / attribute: the key has no `;` `=` `,` and no leading whitespace; a key without
